@@ -10,8 +10,9 @@ use syn::{
 };
 
 use super::{
-    parse_single, ArgsForCompareOp, AttributeTarget, CompareOp, DeriveEntry, DeriveItemKind,
-    FieldEntry, HelperAttributeKinds, HelperAttributes, VariantEntry,
+    allow_deprecated_for_enum, allow_deprecated_for_struct, parse_single, ArgsForCompareOp,
+    AttributeTarget, CompareOp, DeriveEntry, DeriveItemKind, FieldEntry, HelperAttributeKinds,
+    HelperAttributes, VariantEntry,
 };
 
 #[derive(Debug, Copy, Clone, Eq, PartialEq)]
@@ -120,6 +121,10 @@ fn build_compare_op(
     hattrs: &HelperAttributes,
 ) -> Result<TokenStream> {
     let kind = DeriveItemKind::CompareOp(op);
+    let allow_deprecated = match source {
+        ItemSource::Struct { item, .. } => allow_deprecated_for_struct(item),
+        ItemSource::Enum { item, .. } => allow_deprecated_for_enum(item),
+    };
     let (impl_g, type_g, _) = source.generics().split_for_impl();
     let this_ty_ident = source.ident();
     let this_ty: Type = parse_quote!(#this_ty_ident #type_g);
@@ -148,8 +153,7 @@ fn build_compare_op(
                     }
                     #[allow(clippy::double_parens)]
                     #[allow(unused_parens)]
-                    #[allow(non_snake_case)]
-                    #[allow(deprecated)]
+                    #allow_deprecated
                     impl #impl_g __AssertFieldsEq for #this_ty #wheres {
                         fn _f(__this: &Self) {
                             #body
@@ -162,10 +166,9 @@ fn build_compare_op(
 
     Ok(quote! {
         #[automatically_derived]
-        #[allow(deprecated)]
+        #allow_deprecated
         #[allow(clippy::double_parens)]
         #[allow(unused_parens)]
-        #[allow(non_snake_case)]
         impl #impl_g #trait_ for #this_ty #wheres {
             #body
         }
